@@ -4,7 +4,6 @@ import (
 	"encoding/binary"
 	"encoding/hex"
 	"hash"
-	"path"
 	"strconv"
 	"strings"
 
@@ -237,6 +236,21 @@ func newDigestFromByteStreamPathCommon(header, trailer []string) (Digest, remote
 	return d, compressor, err
 }
 
+// joinNonEmptyComponents joins all non-empty arguments with slashes.
+// Unlike path.Join(), it does not clean the resulting path. Instance
+// names are permitted to contain "." and ".." components. These need to
+// be preserved for the resulting path to be parsed back to the same
+// digest.
+func joinNonEmptyComponents(components ...string) string {
+	nonEmpty := make([]string, 0, len(components))
+	for _, component := range components {
+		if component != "" {
+			nonEmpty = append(nonEmpty, component)
+		}
+	}
+	return strings.Join(nonEmpty, "/")
+}
+
 // GetByteStreamReadPath converts the Digest to a string having
 // one of the following formats:
 //
@@ -246,7 +260,7 @@ func newDigestFromByteStreamPathCommon(header, trailer []string) (Digest, remote
 // This notation is used to read files through the ByteStream service.
 func (d Digest) GetByteStreamReadPath(compressor remoteexecution.Compressor_Value) string {
 	digestFunction, hashStart, hashEnd, sizeBytes, sizeBytesEnd := d.unpack()
-	return path.Join(
+	return joinNonEmptyComponents(
 		d.value[sizeBytesEnd+1:],
 		compressorEnumToMidfix[compressor],
 		digestFunctionEnumToMidfix[digestFunction],
@@ -264,7 +278,7 @@ func (d Digest) GetByteStreamReadPath(compressor remoteexecution.Compressor_Valu
 // This notation is used to write files through the ByteStream service.
 func (d Digest) GetByteStreamWritePath(uuid uuid.UUID, compressor remoteexecution.Compressor_Value) string {
 	digestFunction, hashStart, hashEnd, sizeBytes, sizeBytesEnd := d.unpack()
-	return path.Join(
+	return joinNonEmptyComponents(
 		d.value[sizeBytesEnd+1:],
 		"uploads",
 		uuid.String(),
